@@ -13,7 +13,7 @@ REPO = os.environ.get("VERIF_REPO_DIR", "/repo")
 HERE = os.path.dirname(os.path.abspath(__file__))
 if REPO != "/repo":
     print(sh("go mod edit -replace github.com/go-kid/ioc=%s" % REPO, HERE + "/harness"))
-src = sys.argv[1]
+src = os.path.abspath(sys.argv[1])
 own = "--own" in sys.argv
 claimed = [c["property_id"] for c in json.load(open(HERE + "/MANIFEST.json"))["checks"]]
 assert sh("git -C " + REPO + " status --short")[1].strip() == "", "repo dirty"
